@@ -32,12 +32,33 @@ def _isna(v: Any) -> bool:
     return v is None or (isinstance(v, float) and v != v)
 
 
+class Vec(tuple):
+    """Stand-in for a one-dimensional numpy array of coordinates: element-wise difference and sum, nothing else."""
+
+    _folder_stub = True
+
+    def __sub__(self, o):
+        return Vec(a - b for a, b in zip(self, o))
+
+    def __add__(self, o):
+        return Vec(a + b for a, b in zip(self, o))
+
+
+def _norm(v: Any) -> float:
+    if not isinstance(v, (tuple, list)) or not all(isinstance(x, (int, float)) for x in v):
+        raise Unknown("numpy.linalg.norm of a value that is not a vector of numbers")
+    return sum(float(x) * float(x) for x in v) ** 0.5
+
+
 class _Rewrite(ast.NodeTransformer):
     """pd.isna(x) / pandas.isna(x) / pd.isnull(x) / pd.notna(x) -> local callables"""
 
     def visit_Call(self, n: ast.Call):
         self.generic_visit(n)
         f = n.func
+        # numpy.linalg.norm(v) of one vector (no axis) -> Euclidean norm of a stand-in vector
+        if isinstance(f, ast.Attribute) and f.attr == "norm" and isinstance(f.value, ast.Attribute) and f.value.attr == "linalg" and isinstance(f.value.value, ast.Name) and f.value.value.id in ("np", "numpy") and len(n.args) == 1 and not n.keywords:
+            return ast.copy_location(ast.Call(func=ast.Name(id="norm__", ctx=ast.Load()), args=n.args, keywords=[]), n)
         if isinstance(f, ast.Attribute) and isinstance(f.value, ast.Name) and f.value.id in ("pd", "pandas", "np", "numpy", "math"):
             if f.attr in ("isna", "isnull", "isnan"):
                 return ast.copy_location(ast.Call(func=ast.Name(id="isna__", ctx=ast.Load()), args=n.args, keywords=[]), n)
@@ -104,6 +125,7 @@ class DefaultDictStub(dict):
 
 BASE = {
     "isna__": _isna,
+    "norm__": _norm,
     "notna__": lambda v: not _isna(v),
     "isinstance": lambda v, t: isinstance(v, t),
     "repr": repr,
